@@ -274,6 +274,50 @@ func embedRun(args []string) int {
 			}
 		}
 	}
+	// word records with very long words (the length field allows 65535 bytes): complete files must load, a length field that
+	// points past the end of the file is an error
+	for _, wl := range []int{399, 400, 401, 1000, 5007, 65535} {
+		for _, cut := range []bool{false, true} {
+			var b bytes.Buffer
+			binary.Write(&b, binary.LittleEndian, uint32(2))
+			for i := 0; i < 2; i++ {
+				wd := strings.Repeat(string(rune('a'+i)), wl)
+				binary.Write(&b, binary.LittleEndian, uint16(len(wd)))
+				b.WriteString(wd)
+				vec := make([]float32, 100)
+				for j := range vec {
+					vec[j] = float32(i + j)
+				}
+				binary.Write(&b, binary.LittleEndian, vec)
+			}
+			data := b.Bytes()
+			if cut {
+				data = data[:4+2+wl/2] // ends inside the first word
+			}
+			tr++
+			p := filepath.Join(tmpDir(), fmt.Sprintf("e%d.bin", tr))
+			os.WriteFile(p, data, 0o644)
+			ev := &embedEv{Op: "load", Tr: tr, File: fmt.Sprintf("words header=true claimed=2 word-length=%d cut=%v", wl, cut), SizeKB: len(data)/1024 + 1, Complete: !cut}
+			cmd := exec.Command(self, "embed-child", "words", p)
+			var ob, eb bytes.Buffer
+			cmd.Stdout, cmd.Stderr = &ob, &eb
+			err := cmd.Run()
+			var res struct {
+				Outcome string `json:"outcome"`
+				AllocKB int    `json:"alloc_kb"`
+			}
+			if err != nil || json.Unmarshal(bytes.TrimSpace(ob.Bytes()), &res) != nil {
+				ev.Outcome, ev.AllocKB, ev.Note = "crash", 1<<30, lastLines(eb.String(), 2)
+			} else {
+				ev.Outcome, ev.AllocKB = res.Outcome, res.AllocKB
+			}
+			if !cut && ev.Outcome == "error" {
+				ev.Outcome = "error-on-a-complete-file"
+			}
+			os.Remove(p)
+			w.emit(ev.fill())
+		}
+	}
 	// ---- semantic stage: paired searches with / without an attached index
 	in2 := newInterner()
 	qs := []string{"frobnicate widget", "widget number", "delete item", "frobnicte", "item question scattered", "qqqqzzzz", "frobnicate"}
@@ -325,6 +369,18 @@ func embedRun(args []string) int {
 					}
 					if k%9 == 0 {
 						v = make([]float32, dim) // zero vector
+					}
+					if mode == 3 { // a damaged table: NaN, infinities and huge components here and there
+						switch k % 7 {
+						case 1:
+							v[k%dim] = float32(math.NaN())
+						case 2:
+							v[k%dim] = float32(math.Inf(1))
+						case 3:
+							v[k%dim] = float32(math.Inf(-1))
+						case 4:
+							v[k%dim] = math.MaxFloat32
+						}
 					}
 					idx.CmdEmbeddings = append(idx.CmdEmbeddings, v)
 				}
